@@ -655,6 +655,51 @@ func harnessSync(c *ev.Check, subset bool, picks, bound, shards int) xa.Harness 
 	return xa.Harness{Name: name, Bound: bound, Shards: shards, Horizon: 20000, Body: body, Check: check}
 }
 
+// harnessHealthWrite: picks racing a health probe that RE-RECORDS an endpoint as healthy (nothing changes: the ready
+// set is stable). Whatever the pick meets while the probe result is being written, every ready endpoint keeps its
+// turn: the picks are balanced and none fails.
+func harnessHealthWrite(c *ev.Check, k, picks, bound int) xa.Harness {
+	name := fmt.Sprintf("picks-vs-health-rerecorded-k%d-p%d", k, picks)
+	body := func() interface{} {
+		var ci *clusters.ClusterInfo
+		vsched.Passthrough(func() { ci = mkCluster(k, true) })
+		o := &obsA{counts: make([]int, k)}
+		vsched.GoNamed("probe", func() {
+			if e, ok := ci.Endpoints.Load(epName(0)); ok {
+				e.UpdateStatus(true, "", "")
+			}
+		})
+		vsched.GoNamed("picker", func() {
+			for i := 0; i < picks; i++ {
+				got, err := pick(ci)
+				if err != nil {
+					o.errs++
+					continue
+				}
+				o.counts[got]++
+			}
+		})
+		vsched.Join()
+		vsched.Passthrough(func() { ci.Stop() })
+		return o
+	}
+	check := func(x *vsched.Exec) error {
+		o := x.Obs.(*obsA)
+		c.Outcome("pick_distributions", name+fmt.Sprint(o.counts))
+		if o.errs > 0 {
+			return fmt.Errorf("pick-failed: %d picks failed although all %d endpoints are ready", o.errs, k)
+		}
+		lo, hi := picks/k, (picks+k-1)/k
+		for _, cnt := range o.counts {
+			if cnt < lo || cnt > hi {
+				return fmt.Errorf("uneven-during-health-write: %d picks over %d ready endpoints, while a probe re-recorded one of them as healthy, were distributed %v (each must get %d..%d)", picks, k, o.counts, lo, hi)
+			}
+		}
+		return nil
+	}
+	return xa.Harness{Name: name, Bound: bound, Shards: 1, Horizon: 20000, Body: body, Check: check}
+}
+
 func allHarnesses(c *ev.Check, bound int) []xa.Harness {
 	sh := 1
 	if bound >= 2 {
@@ -665,6 +710,8 @@ func allHarnesses(c *ev.Check, bound int) []xa.Harness {
 		harnessA(c, 3, 2, 2, 0, bound, sh),
 		harnessA(c, 3, 3, 1, 0, bound, sh),
 		harnessA(c, 3, 2, 2, 1, bound, sh),
+		harnessHealthWrite(c, 2, 2, bound),
+		harnessHealthWrite(c, 3, 3, bound),
 	}
 	// (Sync is long: hundreds of schedule points. Preemption bound 1 in the quick tier - one switch into the update
 	// and the free switch back -, bound 2 with one pick in the thorough tier)
